@@ -289,6 +289,13 @@ func (w *World) newProbedApp(db dbm.DB, probes bool) *app.ElysApp {
 }
 
 // BuildGenesis produces the deterministic genesis of a world.
+// nativeMetadata: bank denom metadata for the native token only, as on a real chain (IBC vouchers
+// and other externally issued assets carry none). The burner module burns what sits at the zero
+// address for every denom that has metadata.
+func nativeMetadata() []banktypes.Metadata {
+	return []banktypes.Metadata{{Description: "native token", Base: "uelys", Display: "uelys", Name: "Elys", Symbol: "ELYS", DenomUnits: []*banktypes.DenomUnit{{Denom: "uelys", Exponent: 0}}}}
+}
+
 func BuildGenesis(a *app.ElysApp, cfg Config, all []*Actor, feeders []*Actor, voter *Actor, creators []*Actor) ([]byte, *cmttypes.ValidatorSet, *cmttypes.Validator) {
 	cdc := a.AppCodec()
 	gs := app.NewDefaultGenesisState(a, cdc)
@@ -319,7 +326,7 @@ func BuildGenesis(a *app.ElysApp, cfg Config, all []*Actor, feeders []*Actor, vo
 	balances = append(balances, banktypes.Balance{Address: authtypes.NewModuleAddress(stakingtypes.BondedPoolName).String(), Coins: sdk.NewCoins(sdk.NewCoin("uelys", bondAmt))})
 	supply = supply.Add(sdk.NewCoin("uelys", bondAmt))
 	gs[authtypes.ModuleName] = cdc.MustMarshalJSON(authtypes.NewGenesisState(authtypes.DefaultParams(), genAccs))
-	gs[banktypes.ModuleName] = cdc.MustMarshalJSON(banktypes.NewGenesisState(banktypes.DefaultGenesisState().Params, balances, supply, []banktypes.Metadata{}, []banktypes.SendEnabled{}))
+	gs[banktypes.ModuleName] = cdc.MustMarshalJSON(banktypes.NewGenesisState(banktypes.DefaultGenesisState().Params, balances, supply, nativeMetadata(), []banktypes.SendEnabled{}))
 
 	pub, _ := validator.ToProto()
 	ivp := []abci.ValidatorUpdate{{Power: validator.VotingPower, PubKey: pub.PubKey}}
